@@ -1,4 +1,5 @@
 import Slock.Proofs.ValuePanic
+import Slock.Proofs.ValueExec
 /-!
 C13 (pure part, value frames): no bytes a client can put into a data frame make `ProcessParseLockData` +
 `LockManager.ProcessLockData` panic (repaired tree: commits 570db92, da807c1, 076286b, f7f91cc, 639fbf7, f897b3e).
@@ -64,5 +65,41 @@ theorem former_panic_witnesses_return :
     -- array-flagged SET with element length 255, then POP 1 (f897b3e)
     ∧ isPanic (runAll cx0 none [[7,0,0,0, 0,2, 255,0,0,0, 9], [6,0,0,0, 8,1, 1,0,0,0]]) = false := by
   decide
+
+/-! ### EXECUTE frames: `LockCommandData.DecodeLockCommand` (the embedded 64-byte command and its own data frame) -/
+
+/-- For ALL bytes (and all bytes up to the slice capacity): parsing an EXECUTE frame and decoding its embedded command
+    never panics — both slice expressions are covered by the length checks in front of them. -/
+theorem no_panic_decode_lock_command (data extra : Bytes) : (decodeFrame data extra).isPanic = false :=
+  decodeFrame_no_panic data extra
+
+/-- … also on any `LockCommandData` whose value offset can be computed (e.g. built by a constructor). -/
+theorem no_panic_decode_lock_command_cmd (c : Cmd) (off : Nat) (hoff : cmdOff c = .ok off) :
+    (decodeLockCommand c).isPanic = false :=
+  decodeLockCommand_no_panic c off hoff
+
+/-- An embedded command that announces N > 0 data bytes while the frame carries fewer is refused with an error
+    (after the `make([]byte, N+4)` — recorded in the result). -/
+theorem decode_lock_command_refuses_short (c : Cmd) (off : Nat) (hoff : cmdOff c = .ok off) (h68 : off + 68 ≤ c.data.length)
+    (fl : UInt8) (hfl : (((c.data ++ c.extra).drop off).take 64)[lockCommandFlagOffset]? = some fl)
+    (hdata : (fl &&& LOCK_FLAG_CONTAINS_DATA == 0) = false)
+    (hpos : 0 < readLE ((c.data.drop (off + 64)).take 4))
+    (hshort : c.data.length < off + readLE ((c.data.drop (off + 64)).take 4) + 68) :
+    decodeLockCommand c = .err (some (readLE ((c.data.drop (off + 64)).take 4) + 4)) :=
+  decodeLockCommand_short c off hoff h68 fl hfl hdata hpos hshort
+
+/-- embedded command with the contains-data flag, announcing 3 data bytes `[0, 0, 0x61]` (a SET "a"… of 1 byte): decoded -/
+example : decodeFrame ([73,0,0,0, 5,0] ++ List.replicate 19 0 ++ [0x20] ++ List.replicate 44 0 ++ [3,0,0,0, 0,0,0x61]) []
+    = .ok (List.replicate 19 0 ++ [0x20] ++ List.replicate 44 0) (some ⟨[3,0,0,0, 0,0,0x61], [], 0, 0, 0⟩) (some 7) := by decide
+
+/-- the same announcing 3 bytes but carrying 2, 1 and 0: error, never a panic — even when the slice capacity has spare bytes -/
+example : decodeFrame ([72,0,0,0, 5,0] ++ List.replicate 19 0 ++ [0x20] ++ List.replicate 44 0 ++ [3,0,0,0, 0,0]) [0x61, 0x62]
+    = .err (some 7) := by decide
+example : decodeFrame ([70,0,0,0, 5,0] ++ List.replicate 19 0 ++ [0x20] ++ List.replicate 44 0 ++ [3,0,0,0]) [] = .err (some 7) := by decide
+/-- a huge announced length: error (and a 2 GiB buffer was allocated first) -/
+example : decodeFrame ([70,0,0,0, 5,0] ++ List.replicate 19 0 ++ [0x20] ++ List.replicate 44 0 ++ [0xfc,0xff,0xff,0x7f]) []
+    = .err (some 2147483648) := by decide
+/-- embedded command cut short: error -/
+example : decodeFrame ([65,0,0,0, 5,0] ++ List.replicate 63 0) [] = .err none := by decide
 
 end Slock.C13V
